@@ -68,6 +68,34 @@ def check_big(S, p):
             S.viol("C13:big-spectrum", "[C %s on shape %r] output has shape %r and %d values (expected %d); first differences (flat, got, expected) %r" % (
                 " ".join(args), shape, got_shape, len(got), n, bad[:3]), wit)
         S.case(key=digest(["big", shape, args]), nontrivial=True)
+    # projection (and marginalize > project) of a sparse spectrum with thousands of cells, against exact rational arithmetic
+    for shape2, to2, marg in (([4099], [21], None), ([70, 71], [9, 8], None), ([8193], [33], None), ([17, 17, 17], [5, 7], 0), ([65, 67], [64, 66], None)):
+        if rng.random() < 0.4:
+            continue
+        n2 = O.prod(shape2)
+        vals2 = [0.0] * n2
+        for k in [n2 - 1, n2 - 2, 0, n2 // 2] + [rng.randrange(n2) for _ in range(5)]:
+            vals2[k] = float(rng.randint(1, 50))
+        inp2 = GS.npy_bytes(shape2, vals2)
+        args2 = ["view"] + (["-m", str(marg)] if marg is not None else []) + ["--project-shape", ",".join(map(str, to2)), "-O", "npy"]
+        r2 = cli.sfs(args2, stdin=inp2, timeout=120)
+        S.count("big_spectrum_runs")
+        ex_shape, ex = list(shape2), [Fraction(v) for v in vals2]
+        if marg is not None:
+            ex_shape, ex = O.marginalize(ex_shape, ex, [marg])
+        ex = project_exact(ex_shape, ex, to2)
+        wit2 = {"level": "C", "argv": r2.argv, "big_shape": shape2, "nonzero": [[k, v] for k, v in enumerate(vals2) if v], "run": r2.brief()}
+        if r2.rc != 0:
+            S.viol("C13:fail", "[C %s on sparse shape %r] rc %s %r" % (" ".join(args2), shape2, r2.rc, r2.err[:200]), wit2)
+            continue
+        arr = load_npy(r2.out)
+        got2 = [float(x) for x in arr.reshape(-1)]
+        scale2 = sum(abs(e) for e in ex) or Fraction(1)
+        bad2 = [(j, g, float(e)) for j, (g, e) in enumerate(zip(got2, ex)) if not math.isfinite(g) or abs(Fraction(g) - e) > scale2 / 10 ** 9]
+        if list(arr.shape) != to2 or len(got2) != len(ex) or bad2:
+            S.viol("C13:big-spectrum", "[C %s on sparse shape %r] output shape %r; (flat, got, exact) %r; mass %r of %r" % (
+                " ".join(args2), shape2, list(arr.shape), bad2[:4], sum(got2), float(sum(ex))), wit2)
+        S.case(key=digest(["bigproj", shape2, to2]), nontrivial=True)
 
 
 def shard(S, p):
